@@ -270,6 +270,22 @@ def run_case(ctx, rng):
         ctx.record_violation('csv-shape', 'records with %r fields for %d columns' % ([len(r) for r in bad][:3], ncols), payload=payload)
     if not opts['expand'] and len(records) != 1 + nrows:
         ctx.record_violation('csv-record-count', '%d records for %d rows' % (len(records), nrows), payload=payload)
+    # the format plug-ins the shell and the command line go through print the same tables ("(empty)" for an empty text table)
+    from beanquery import shell
+    settings = dict(opts, nullvalue=nullvalue, format='text', numberify=False, pager=False)
+    for fmt, want in (('csv', ctext), ('text', text if rows else '(empty)\n')):
+        if fmt == 'text' and listsep != '  ':
+            continue      # the list separator is not a shell setting
+        out = io.StringIO()
+        try:
+            shell.FORMATS[fmt](desc, rows, out, dcontext=dcontext, **settings)
+            got = out.getvalue()
+        except Exception as exc:  # noqa: BLE001
+            got = 'EXC:%s' % type(exc).__name__
+        ctx.count('plugin:' + fmt)
+        if got != want:
+            ctx.record_violation('format-plugin-differs:' + fmt, 'the %s plug-in prints %r ..., the renderer %r ...' % (fmt, got[:200], want[:200]),
+                                 payload=payload)
     for k in ('boxed', 'unicode', 'spaced', 'expand', 'narrow'):
         ctx.count('%s=%d' % (k, opts[k]))
     for k in set(kinds):
